@@ -8,7 +8,7 @@ import importlib
 
 
 # properties whose machinery is finished and passes on the unchanged tree (others: not_applicable "not yet")
-DONE = {"C01", "C02", "C03", "C04", "C05", "C06", "C07", "C08", "C09", "C10", "C11", "C13", "C14", "C15", "C16", "C17", "C18", "C19", "C20"}
+DONE = {"C%02d" % i for i in range(1, 21)}
 
 
 def _claims():
